@@ -222,6 +222,59 @@ theorem unclamped_wait_condition_never_waits (early : Bool) (maxLimit wt reqLimi
   have h2 : maxLimit ≠ reqLimit := by omega
   simp [queryRequest, h0, h1, h2, queryLoop, scriptCur]
 
+/-! ### the client's stream loop (`api.Select`): back-to-back waits with writes racing the gaps -/
+
+/-- total number of events that become readable over the rounds -/
+def roundsTotal : List Round → Nat
+  | [] => 0
+  | r :: rs => r.gap + r.during + roundsTotal rs
+
+theorem selectStream_at_end (stored : Nat) (rs : List Round) :
+    selectStream true stored (.at stored) rs = List.range' stored (roundsTotal rs) := by
+  induction rs generalizing stored with
+  | nil => simp [selectStream, roundsTotal]
+  | cons r rs ih =>
+    simp only [selectStream, roundsTotal, Bool.not_true, Bool.and_false, Bool.false_eq_true, if_false]
+    rw [ih (stored + r.gap + r.during)]
+    have e1 : stored + r.gap + r.during - stored = r.gap + r.during := by omega
+    have e2 : stored + r.gap + r.during = stored + (r.gap + r.during) := by omega
+    rw [e1, e2, List.range'_append_1]
+
+theorem selectStream_at (n stored : Nat) (r : Round) (rs : List Round) (h : n ≤ stored) :
+    selectStream true stored (.at n) (r :: rs) = List.range' n (stored + roundsTotal (r :: rs) - n) := by
+  simp only [selectStream, roundsTotal, Bool.not_true, Bool.and_false, Bool.false_eq_true, if_false]
+  rw [selectStream_at_end]
+  have e1 : stored + r.gap + r.during = n + (stored + r.gap + r.during - n) := by omega
+  have e2 : stored + (r.gap + r.during + roundsTotal rs) - n = (stored + r.gap + r.during - n) + roundsTotal rs := by omega
+  rw [e2, ← List.range'_append_1, ← e1]
+
+/-- **Back-to-back waits of the documented client loop deliver every event, once, in order — however the writes race the
+gaps.** `api.Select` in stream mode as the source has it now (fact `clientSelectTakesNextRequest`: every round continues with
+the answer's `NextQueryRequest`), started at a concrete position or at `"tail"`: for every schedule of rounds — events landing
+in the gap between an answer and the next request, or during a wait, any number of empty rounds — the handler receives
+exactly the events from the first request's position to the end, each once, in stored order. -/
+theorem client_stream_delivers_every_event (stored : Nat) (r : Round) (rs : List Round) :
+    selectStream Generated.C11.clientSelectTakesNextRequest stored .tail (r :: rs)
+      = List.range' (stored + r.gap) (r.during + roundsTotal rs) ∧
+    (∀ n, n ≤ stored → selectStream Generated.C11.clientSelectTakesNextRequest stored (.at n) (r :: rs)
+      = List.range' n (stored + roundsTotal (r :: rs) - n)) := by
+  have hfact : Generated.C11.clientSelectTakesNextRequest = true := by decide
+  rw [hfact]
+  constructor
+  · simp only [selectStream, Bool.not_true, Bool.and_false, Bool.false_eq_true, if_false]
+    rw [selectStream_at_end]
+    have e1 : stored + r.gap + r.during - (stored + r.gap) = r.during := by omega
+    have e3 : stored + r.gap + r.during = (stored + r.gap) + r.during := by omega
+    rw [e1, e3, List.range'_append_1]
+  · intro n hn; exact selectStream_at n stored r rs hn
+
+/-- the model's other branch (seeded change C11-15: an empty page `continue`s without taking the continuation request): a
+stream started at `"tail"` whose first wait expired empty re-resolves `"tail"` — the event that landed in the gap is skipped
+and never delivered, although a later event is -/
+theorem resent_tail_request_skips_gap_event :
+    selectStream false 3 .tail [⟨0, 0⟩, ⟨1, 0⟩, ⟨0, 1⟩] = [4] ∧
+    selectStream true 3 .tail [⟨0, 0⟩, ⟨1, 0⟩, ⟨0, 1⟩] = [3, 4] := by decide
+
 /-! ### non-vacuity and the behaviours the harness measures, as kernel-evaluated runs -/
 
 /-- a write racing with the reader going to sleep — append and flush between the reader's EOF (position 3) and its
